@@ -21,6 +21,8 @@ type replayFile struct {
 	Violation  *violation             `json:"violation,omitempty"`
 	History    *history               `json:"history,omitempty"`
 	GiantEvery uint64                 `json:"giant_every,omitempty"`
+	Probe      *probe                 `json:"probe,omitempty"`
+	ProbeWant  string                 `json:"probe_want,omitempty"`
 	Signature  string                 `json:"signature"`
 	RaceSig    string                 `json:"race_signature,omitempty"`
 	RaceText   string                 `json:"race_report,omitempty"`
@@ -95,6 +97,23 @@ func writeJSON(path string, v interface{}) error {
 // tryReplay executes one explicit execution in a fresh process and reports
 // whether the wanted signature shows up.
 func tryReplay(p *prepared, rf *replayFile, wantSig string, attempts int) (bool, *violRec, *raceReport) {
+	if rf.Probe != nil {
+		// O4b: what a brand-new process answers is recomputed on the tree under test, never
+		// taken from the file (the file may have been written against another tree)
+		pf := filepath.Join(p.Scratch, fmt.Sprintf("probe-replay-%d.json", time.Now().UnixNano()))
+		b, _ := json.Marshal(rf.Probe)
+		if os.WriteFile(pf, b, 0o644) != nil {
+			return false, nil, nil
+		}
+		r := runWorker(workerSpec{Bin: p.BinPlain, Args: []string{"-probe", pf}, Timeout: 2 * time.Minute})
+		os.Remove(pf)
+		if r.ProbeRes == nil {
+			return false, nil, nil
+		}
+		c := *rf
+		c.ProbeWant = *r.ProbeRes
+		rf = &c
+	}
 	tmp := filepath.Join(p.Scratch, fmt.Sprintf("cand-%d.json", time.Now().UnixNano()))
 	if err := writeJSON(tmp, rf); err != nil {
 		return false, nil, nil
@@ -141,6 +160,9 @@ func report(o *options, p *prepared, f *finding, budgetS float64) string {
 	}
 	if f.Race != nil {
 		fmt.Printf("c14:   %s\n", firstLines(f.Race.Text, 12))
+	}
+	if f.Probe != nil && p.Mode != "degraded" {
+		return reportProbe(o, p, f, rf, path, budgetS)
 	}
 	if p.Mode == "degraded" || f.Oracle() == "O4" {
 		rf.Note = "not replayable as an explicit schedule (degraded mode or cross-process oracle): re-run the check with the same VERIF_SEED"
@@ -241,6 +263,42 @@ func report(o *options, p *prepared, f *finding, budgetS float64) string {
 		}
 	}
 	fmt.Printf("c14:   minimised to %d operations, %d decisions (%d candidates tried)\n", nOps, len(rf.Decisions), st["candidates"])
+	return path
+}
+
+// reportProbe turns an O4b finding (a worker's answer differs from a brand-new process's)
+// into a replay file: the worker's history of runs, shrunk to the shortest suffix that
+// still bends the answer, followed by the operation.
+func reportProbe(o *options, p *prepared, f *finding, rf *replayFile, path string, budgetS float64) string {
+	rf.Probe = f.Probe
+	rf.ProbeWant = f.Viol.Want
+	rf.History = f.Hist
+	rf.Build = "plain"
+	deadline := time.Now().Add(time.Duration(budgetS * float64(time.Second)))
+	ok, _, _ := tryReplay(p, rf, f.Sig, 1)
+	if !ok {
+		rf.Note = "the worker's whole history did not reproduce the difference in a fresh process: the answer depends on something else than the recorded calls (timing, memory state)"
+		writeJSON(path, rf)
+		return path
+	}
+	full := *f.Hist
+	best := full
+	for keep := uint64(1); keep < full.Count && time.Now().Before(deadline); keep *= 4 {
+		h := full
+		h.From = full.From + (full.Count-keep)*full.Stride
+		h.Count = keep
+		h.ColdFirst = false
+		rf.History = &h
+		if ok, _, _ := tryReplay(p, rf, f.Sig, 1); ok {
+			best = h
+			break
+		}
+	}
+	rf.History = &best
+	rf.Minimised = true
+	rf.Note = fmt.Sprintf("replays by re-executing %d earlier run(s) of the worker and then the operation alone; a brand-new process answers probe_want", best.Count)
+	writeJSON(path, rf)
+	fmt.Printf("c14:   reproduced with a history of %d earlier runs (of %d)\n", best.Count, full.Count)
 	return path
 }
 
@@ -398,7 +456,7 @@ func doReplay(o *options, p *prepared, path string) int {
 		fmt.Fprintln(os.Stderr, "c14: bad replay file:", err)
 		return 2
 	}
-	if rf.Scenario == nil {
+	if rf.Scenario == nil && rf.Probe == nil {
 		fmt.Printf("c14: %s carries no explicit execution (%s)\n", path, rf.Note)
 		return 2
 	}
